@@ -162,7 +162,76 @@ func TestGvcAudit(t *testing.T) {
 			}
 		}()
 	}
-	fmt.Printf("GVC-AUDIT cases=%d values=%d failures=%d\n", n, len(cases), fails)
+	// behavioural clauses of the property on small trees: a parent holding the alias form behaves
+	// like the parent holding the native value it converts to
+	type pair struct {
+		name   string
+		native Stack
+		alias  any
+	}
+	nat := And().Push("a", "b")
+	natA := gvcA1(nat)
+	natA2 := gvcA2(nat)
+	pairs := []pair{{"alias", nat, natA}, {"alias with String", nat, natA2}, {"*alias", nat, &natA}, {"*alias with String", nat, &natA2}}
+	for _, p := range pairs {
+		func() {
+			defer func() {
+				if e := recover(); e != nil {
+					report("behaviour %s: panic %v", p.name, e)
+				}
+			}()
+			pn := List().Push("x", p.native, "y")
+			pa := List().Push("x", p.alias, "y")
+			n++
+			if pn.String() != pa.String() {
+				report("behaviour %s: parent String() %q (native) vs %q (alias)", p.name, pn.String(), pa.String())
+			}
+			n++
+			if pn.IsNesting() != pa.IsNesting() {
+				report("behaviour %s: IsNesting differs", p.name)
+			}
+			n++
+			if e1, e2 := pn.IsEqual(pa), pa.IsEqual(pn); e1 != nil || e2 != nil {
+				report("behaviour %s: IsEqual native/alias: %v / %v", p.name, e1, e2)
+			}
+			n++
+			un, _ := pn.Unmarshal()
+			ua, _ := pa.Unmarshal()
+			if !reflect.DeepEqual(un, ua) {
+				report("behaviour %s: Unmarshal differs", p.name)
+			}
+			n++
+			vn, okn := pn.Traverse(1, 0)
+			va, oka := pa.Traverse(1, 0)
+			if okn != oka || vn != va {
+				report("behaviour %s: Traverse differs", p.name)
+			}
+			cn := Cond("k", Eq, p.native)
+			ca := Cond("k", Eq, p.alias)
+			n++
+			if cn.String() != ca.String() {
+				report("behaviour %s: Condition String() %q (native) vs %q (alias)", p.name, cn.String(), ca.String())
+			}
+			n++
+			if cn.Len() != ca.Len() || cn.IsNesting() != ca.IsNesting() {
+				report("behaviour %s: Condition Len/IsNesting differs", p.name)
+			}
+			n++
+			if x := Cond("k", Eq, "v").SetNoNesting(true).SetExpression(p.alias); x.Expression() != "v" {
+				report("behaviour %s: no-nesting Condition accepted the alias", p.name)
+			}
+			n++
+			if l := List().SetNoNesting(true).Push(1, p.alias, 2).Len(); l != 2 {
+				report("behaviour %s: no-nesting Push kept %d values, want 2", p.name, l)
+			}
+			n++
+			d := List()
+			if ok := List().Push(p.alias).Transfer(d); !ok || d.Len() != 1 {
+				report("behaviour %s: Transfer of an alias element", p.name)
+			}
+		}()
+	}
+	fmt.Printf("GVC-AUDIT cases=%d values=%d failures=%d\n", n, len(cases)+len(pairs), fails)
 }
 `
 
